@@ -248,6 +248,60 @@ namespace c15
     }
   };
 
+  /// node functional / dof assignment objects reused over all entities of one dimension in non-natural orders must give
+  /// exactly what a fresh object per entity gives (state left behind by prepare/finish)
+  template<typename Space_, typename Function_, int d_>
+  struct FunctionalReuse
+  {
+    /// returns the number of mismatching (entity, dof) values; counts comparisons in n
+    static long check(const Space_& space, const Function_& fn, long& n)
+    {
+      long bad = 0;
+      typedef typename Space_::template NodeFunctional<d_, double>::Type NodeFunc;
+      typedef typename Space_::template DofAssignment<d_, double>::Type DofAssign;
+      if constexpr(int(NodeFunc::max_assigned_dofs) > 0)
+      {
+        constexpr int M = int(NodeFunc::max_assigned_dofs);
+        const Index ne = space.get_mesh().get_num_entities(d_);
+        std::vector<double> ref((size_t)ne * (size_t)M, 0.0);
+        std::vector<Index> refidx((size_t)ne * (size_t)M, Index(0));
+        std::vector<int> refn((size_t)ne, 0);
+        for(Index e = 0; e < ne; ++e)
+        {
+          NodeFunc nf(space); DofAssign da(space);
+          FEAT::Tiny::Vector<double, M> data;
+          nf.prepare(e); nf(data, fn); nf.finish();
+          da.prepare(e);
+          refn[(size_t)e] = da.get_num_assigned_dofs();
+          for(int j = 0; j < refn[(size_t)e]; ++j) { ref[(size_t)e * M + (size_t)j] = data[j]; refidx[(size_t)e * M + (size_t)j] = da.get_index(j); }
+          da.finish();
+        }
+        NodeFunc nf(space); DofAssign da(space);
+        // orders: reversed, natural, every entity twice in a row, middle-out
+        std::vector<Index> order;
+        for(Index e = ne; e > 0; --e) order.push_back(e - 1);
+        for(Index e = 0; e < ne; ++e) order.push_back(e);
+        for(Index e = 0; e < ne; ++e) { order.push_back(e); order.push_back(e); }
+        for(Index e = 0; e < ne; ++e) order.push_back((ne / 2 + (e % 2 ? ne - (e + 1) / 2 : e / 2)) % ne);
+        for(Index e : order)
+        {
+          FEAT::Tiny::Vector<double, M> data;
+          nf.prepare(e); nf(data, fn); nf.finish();
+          da.prepare(e);
+          if(da.get_num_assigned_dofs() != refn[(size_t)e]) ++bad;
+          for(int j = 0; j < refn[(size_t)e]; ++j)
+          {
+            ++n;
+            if(!(data[j] == ref[(size_t)e * M + (size_t)j]) || da.get_index(j) != refidx[(size_t)e * M + (size_t)j]) ++bad;
+          }
+          da.finish();
+        }
+      }
+      if constexpr(d_ > 0) bad += FunctionalReuse<Space_, Function_, d_ - 1>::check(space, fn, n);
+      return bad;
+    }
+  };
+
   // ------------------------------------------------------------------------------------------------------------------
   // element descriptor helper
   // ------------------------------------------------------------------------------------------------------------------
@@ -406,6 +460,160 @@ namespace c15
       return fs;
     }
 
+    /// all data a prepared evaluator returns on one cell at the points pts (values, gradients, Hessians, trafo data, dofs)
+    static void snapshot(Fe& fe, const std::vector<std::array<LD, D>>& pts, std::vector<double>& out)
+    {
+      out.clear();
+      for(int j = 0; j < fe.nloc; ++j) out.push_back(double(fe.gdof[(size_t)j]));
+      for(auto& xi : pts)
+      {
+        fe.eval(xi);
+        for(int i = 0; i < D; ++i) { out.push_back(fe.td.img_point[i]); for(int j = 0; j < D; ++j) { out.push_back(fe.td.jac_mat[i][j]); out.push_back(fe.td.jac_inv[i][j]); } }
+        out.push_back(fe.td.jac_det);
+        for(int a = 0; a < fe.nloc; ++a)
+        {
+          out.push_back(fe.sd.phi[a].value);
+          if constexpr(has_grad) for(int i = 0; i < D; ++i) out.push_back(fe.sd.phi[a].grad[i]);
+          if constexpr(has_hess) for(int i = 0; i < D; ++i) for(int j = 0; j < D; ++j) out.push_back(fe.sd.phi[a].hess[i][j]);
+        }
+      }
+    }
+
+    /// one evaluator / dof-mapping object reused over the cells in non-natural orders (reversed, rotated, a cell twice in
+    /// a row, every cell first / in the middle / last) must return bitwise what a fresh object returns on each cell
+    void check_reuse(const SpaceType& space, Index ncells)
+    {
+      const auto pts = ref_lattice<Shape_>(3);
+      std::vector<std::vector<double>> fresh((size_t)ncells);
+      for(Index k = 0; k < ncells; ++k)
+      {
+        Fe fe(space);
+        fe.prepare(k); snapshot(fe, pts, fresh[(size_t)k]); fe.finish();
+      }
+      std::vector<std::vector<Index>> orders;
+      { std::vector<Index> o; for(Index k = ncells; k > 0; --k) o.push_back(k - 1); for(Index k = 0; k < ncells; ++k) o.push_back(k); orders.push_back(o); }
+      { std::vector<Index> o; for(Index k = 0; k < ncells; ++k) { o.push_back(k); o.push_back(k); } orders.push_back(o); }
+      if(ncells > 2)
+      {
+        // special cell s first, in the middle and last among the others
+        const Index cap = std::min<Index>(ncells, 6);
+        for(Index si = 0; si < cap; ++si)
+        {
+          Index sc = si * (ncells - 1) / (cap - 1);
+          std::vector<Index> o; o.push_back(sc);
+          for(Index k = 0; k < ncells; ++k) { if(k == ncells / 2) o.push_back(sc); if(k != sc) o.push_back(k); }
+          o.push_back(sc);
+          orders.push_back(o);
+        }
+      }
+      std::vector<double> got;
+      for(auto& o : orders)
+      {
+        Fe fe(space);
+        Index prev = ~Index(0);
+        for(Index k : o)
+        {
+          fe.prepare(k); snapshot(fe, pts, got); fe.finish();
+          c.count("reuse_cell_visits");
+          bool same = (got.size() == fresh[(size_t)k].size());
+          for(size_t q = 0; same && q < got.size(); ++q) same = (got[q] == fresh[(size_t)k][q]);
+          if(!same)
+          {
+            c.fail(kp + " reuse.evaluator", "evaluator object reused on cell " + std::to_string(k) + " after cell " + (prev == ~Index(0) ? std::string("-") : std::to_string(prev)) + " returns other data than a fresh evaluator");
+            return;
+          }
+          prev = k;
+        }
+      }
+    }
+
+    /// node functional and dof assignment objects reused over the entities in non-natural orders
+    void check_functional_reuse(const SpaceType& space)
+    {
+      if constexpr(Desc_::has_node_func())
+      {
+        Poly<D> p(LD(0.5));
+        for(int i = 0; i < D; ++i) p += Poly<D>::var(i) * LD(i + 1) + Poly<D>::var(i) * Poly<D>::var((i + 1) % D) * LD(0.25) + Poly<D>::var(i) * Poly<D>::var(i) * Poly<D>::var(i) * LD(0.125);
+        PolyFunction<D> pf(p);
+        long n = 0;
+        long bad = FunctionalReuse<SpaceType, PolyFunction<D>, D>::check(space, pf, n);
+        c.count("reuse_functional_values", (uint64_t)n);
+        c.check(bad == 0, kp + " reuse.node-functional", [&]{ return std::to_string(bad) + " node functional values / dof indices of a reused NodeFunctional/DofAssignment object differ from those of fresh objects"; });
+      }
+    }
+
+    /// evaluation with a sub-set of the tags (gradients only, Hessians only, values only -- the FIRST and only request to
+    /// a fresh evaluator) must give bitwise the data of the full configuration
+    template<bool g_, bool h_>
+    void check_config_subset(const SpaceType& space, Index ncells, const char* what)
+    {
+      typedef FeEval<SpaceType, has_grad, has_hess> Full;
+      // a reduced evaluation: only the requested space tag, trafo tags as the space evaluator asks for them
+      typedef typename Full::TrafoEvaluator TE;
+      typedef typename Full::SpaceEvaluator SE;
+      static constexpr SpaceTags stags = (g_ ? SpaceTags::grad : SpaceTags::none) | (h_ ? SpaceTags::hess : SpaceTags::none) | ((!g_ && !h_) ? SpaceTags::value : SpaceTags::none);
+      static constexpr TrafoTags ttags = SE::template ConfigTraits<stags>::trafo_config;
+      const auto pts = ref_lattice<Shape_>(3);
+      for(Index k = 0; k < ncells; ++k)
+      {
+        Full full(space);
+        full.prepare(k);
+        TE te(space.get_trafo());
+        SE se(space);
+        typename TE::template ConfigTraits<ttags>::EvalDataType td;
+        typename SE::template ConfigTraits<stags>::EvalDataType sd;
+        te.prepare(k); se.prepare(te);
+        for(auto& xi : pts)
+        {
+          typename TE::DomainPointType p;
+          for(int j = 0; j < D; ++j) p[j] = double(xi[(size_t)j]);
+          te(td, p);
+          se(sd, td);
+          full.eval(xi);
+          c.count("config_subset_points");
+          bool same = true;
+          for(int a = 0; a < full.nloc && same; ++a)
+          {
+            if constexpr(!g_ && !h_) same = (sd.phi[a].value == full.sd.phi[a].value);
+            if constexpr(g_) for(int i = 0; i < D; ++i) same = same && (sd.phi[a].grad[i] == full.sd.phi[a].grad[i]);
+            if constexpr(h_) for(int i = 0; i < D; ++i) for(int j = 0; j < D; ++j) same = same && (sd.phi[a].hess[i][j] == full.sd.phi[a].hess[i][j]);
+          }
+          if(!same)
+          {
+            c.fail(kp + " config." + what, std::string("evaluation with only the '") + what + "' tag differs from the full evaluation on cell " + std::to_string(k) + " xi=" + pt_str(xi));
+            se.finish(); te.finish(); full.finish();
+            return;
+          }
+        }
+        se.finish(); te.finish(); full.finish();
+      }
+    }
+
+    void check_config_subsets(const SpaceType& space, Index ncells)
+    {
+      check_config_subset<false, false>(space, ncells, "value-only");
+      if constexpr(has_grad) check_config_subset<true, false>(space, ncells, "grad-only");
+      if constexpr(has_hess) check_config_subset<false, true>(space, ncells, "hess-only");
+    }
+
+    /// the mesh refined once (4-8 x more cells with orientation dependent child numberings): reuse and count checks
+    void run_refined()
+    {
+      DataFactory<Shape_> fac(md);
+      MeshType coarse(fac);
+      FEAT::Geometry::StandardRefinery<MeshType> ref(coarse);
+      MeshType mesh(ref);
+      TrafoType trafo(mesh);
+      SpaceType space(trafo);
+      const Index ncells = mesh.get_num_entities(D);
+      Index expect = 0;
+      for(int d = 0; d <= D; ++d) expect += mesh.get_num_entities(d) * Index(Desc_::template dofs_per_entity<Shape_>(d));
+      c.check(space.get_num_dofs() == expect, kp + " count.global", [&]{ return "refined mesh: get_num_dofs()=" + std::to_string(space.get_num_dofs()) + " expected " + std::to_string(expect); });
+      check_reuse(space, ncells);
+      check_functional_reuse(space);
+      c.count("refined_cells", ncells);
+    }
+
     void run()
     {
       DataFactory<Shape_> fac(md);
@@ -465,6 +673,11 @@ namespace c15
       }
 
       Desc_::extra(*this, space, geoms);
+
+      // ---------------------------------------------------------------- object reuse and reduced configurations
+      if(ncells >= 2) check_reuse(space, ncells);
+      check_functional_reuse(space);
+      check_config_subsets(space, ncells);
 
       const int npts = Desc_::template degree<Shape_>() + 1 + opt.lattice_extra;
       const auto lattice = ref_lattice<Shape_>(npts);
@@ -765,6 +978,21 @@ namespace c15
     c.count(two ? "cases_2cell" : "cases_1cell");
   }
 
+  template<typename Desc_, typename Shape_>
+  void refined_case(verif::Ctx& c, int gA, int gB, int geo, const Twist& tw, const CheckOptions& opt)
+  {
+    typedef ShapeInfo<Shape_> SI;
+    const std::string fam = std::string(Desc_::name()) + "/" + SI::name();
+    c.desc([&]{ return fam + " refined once: " + make_two_cell<Shape_>(gA, gB, geo, tw).desc; });
+    MeshData<Shape_> md = make_two_cell<Shape_>(gA, gB, geo, tw);
+    MeshInfo mi; mi.ncells = 2; mi.geo = geo;
+    SpaceChecker<Desc_, Shape_> chk(c, md, mi, opt);
+    chk.run_refined();
+    c.nontrivial(verif::Hash().str(fam).str("refined").pod(md.hash()).get());
+    c.outcome(fam);
+    c.count("cases_refined");
+  }
+
   /// enumerates all cases of one (family, shape)
   template<typename Desc_, typename Shape_>
   void enumerate_family(verif::Ctx& c, const CheckOptions& opt_in)
@@ -800,6 +1028,21 @@ namespace c15
             if(!c.want()) continue;
             one_case<Desc_, Shape_>(c, false, g, 0, geo, tw, opt);
           }
+        }
+    }
+
+    // ---- 2-cell meshes refined once: evaluator / node functional objects reused over 4..16 cells in scrambled orders
+    if constexpr(D >= 2)
+    {
+      const int gl = (simplex || Desc_::affine_only()) ? 1 : 3;
+      std::vector<std::pair<int, int>> prs = {{0, 0}, {1, nsym - 1}, {nsym / 2, 2}};
+      if(c.thorough) for(int g = 3; g < nsym; g += (D == 3 ? 9 : 2)) prs.emplace_back(g, (5 * g + 1) % nsym);
+      for(auto& pr : prs)
+        for(int t = 0; t < 2; ++t)
+        {
+          if(!c.want()) continue;
+          Twist tw; if(t) { tw.edge_mode = 1; if(D == 3) { tw.face_mode = 1; tw.face_code = simplex ? 4 : 6; } }
+          refined_case<Desc_, Shape_>(c, pr.first, pr.second, gl, tw, opt_in);
         }
     }
 
